@@ -1,7 +1,8 @@
-// C13 / scalar Lagrange-1 systems on quad and triangle meshes; everything lives in c13_kit.hpp
+// C13 / scalar Lagrange-2 systems (DOFs on vertices, edges and quad cells): same kit as c13_scalar.cpp
+#include <kernel/space/lagrange2/element.hpp>
 #include "c13_kit.hpp"
 
-HarnessInfo harness_info() { return {"C13", "c13_scalar", 30000000}; }
+HarnessInfo harness_info() { return {"C13", "c13_q2", 60000000}; }
 void harness_process_init(int argc, char** argv) { Runtime::initialize(argc, argv); }
 
 std::string harness_run()
@@ -9,7 +10,7 @@ std::string harness_run()
   sim::pthread_model_reset();
   sim::clock_reset();
   RunCfg rc;
-  rc.w = wc::draw_cfg(4, 2, false);
+  rc.w = wc::draw_cfg(3, 2, false);
   rc.solver = int(sim::cfg_weighted("solver", {4, 2, 2, 1}));
   rc.cycle = int(sim::cfg_weighted("cycle", {3, 1, 2}));
   rc.wait_order = int(sim::cfg_int("wait_order", 0, 1));
@@ -20,8 +21,8 @@ std::string harness_run()
   typedef Geometry::ConformalMesh<FEAT::Shape::Simplex<2>> Tria;
   switch(rc.w.mesh)
   {
-  case 0: case 2: Kit<Quad, Space::Lagrange1::Element>::run(rc); break;
-  default: Kit<Tria, Space::Lagrange1::Element>::run(rc); break;
+  case 0: case 2: Kit<Quad, Space::Lagrange2::Element>::run(rc); break;
+  default: Kit<Tria, Space::Lagrange2::Element>::run(rc); break;
   }
   sim::clock_set_read_cost(0);
   if(rc.w.layers > 1) sim::probe("multi_layer_world");
